@@ -1499,3 +1499,66 @@ package trzsz
 //@   requires [C10] createdMade(t)
 //@   before trzszTransfer.deleteCreatedFiles assert [C10] result_of("trzszError.isStopAndDelete", 0, 0)
 //@ end
+
+//@ # The saving stage of the pipelined receiver: every chunk taken from the decoded-data channel is
+//@ # appended to the file, in order, before the next one is taken; the go-ahead for the final
+//@ # acknowledgement is given only when exactly the announced size - everything received - has been
+//@ # written.
+//@ func trzszTransfer.pipelineSaveData$1
+//@   ghostvar got int = 0
+//@   ghostvar src map[int]int
+//@   after recv:fileDataChan set src = ite(ok, splice(src, got, view(r0), len(r0)), src)
+//@   after recv:fileDataChan set got = got + ite(ok, len(r0), 0)
+//@   loop 1
+//@     invariant [C02] step == got && wlen[file] == old(wlen)[file] + got && \
+//@         (forall k int {wlog[file][k]} :: old(wlen)[file] <= k && k < wlen[file] ==> wlog[file][k] == src[k - old(wlen)[file]])
+//@   before send:ackImmediatelyChan assert [C02] got == size && wlen[file] == old(wlen)[file] + size && \
+//@       (forall k int {wlog[file][k]} :: old(wlen)[file] <= k && k < wlen[file] ==> wlog[file][k] == src[k - old(wlen)[file]])
+//@ end
+
+//@ # The reading stage of the pipelined sender: every chunk read from the file goes, as the very same
+//@ # slice, first to the encoder and then to the hasher - what is hashed is what is sent - and the
+//@ # running step is the number of bytes handed to both; no more than the announced size is read.
+//@ func trzszTransfer.pipelineReadData$1
+//@   ghostvar toData int = 0
+//@   ghostvar toMD5 int = 0
+//@   after send:fileDataChan set toData = toData + len(p0)
+//@   after send:md5SourceChan set toMD5 = toMD5 + len(p0)
+//@   loop 1
+//@     invariant [C02] 0 <= step && toData == step && toMD5 == step
+//@   before send:fileDataChan assert [C02] same(p0, buffer[:n]) && n > 0 && toData == toMD5 && step + n <= size
+//@   before send:md5SourceChan assert [C02] same(p0, buffer[:n]) && toData == toMD5 + n
+//@ end
+
+//@ # The decoding stage of the pipelined receiver: every decoded chunk goes, as the very same slice,
+//@ # first to the file writer and then to the hasher - what is saved is what is hashed.
+//@ func trzszTransfer.pipelineDecodeData$1
+//@   ghostvar toData int = 0
+//@   ghostvar toMD5 int = 0
+//@   after send:fileDataChan set toData = toData + len(p0)
+//@   after send:md5SourceChan set toMD5 = toMD5 + len(p0)
+//@   loop 1
+//@     invariant [C02] toData == toMD5
+//@   before send:fileDataChan assert [C02] same(p0, buffer[:n]) && n > 0 && toData == toMD5
+//@   before send:md5SourceChan assert [C02] same(p0, buffer[:n]) && toData == toMD5 + n
+//@ end
+
+//@ # The receiving stage: the chunk handed to the decoder is a private copy of exactly the chunk whose
+//@ # length was just reported for acknowledgement; an empty chunk ends the stream and is not forwarded.
+//@ func trzszTransfer.pipelineRecvData$1
+//@   before send:ackChan assert [C02] p0 == len(data)
+//@   before send:recvDataChan assert [C02] len(p0) == len(data) && len(data) > 0 && ref(p0) != ref(data) && \
+//@       (forall k int {p0[k]} :: 0 <= k && k < len(data) ==> p0[k] == data[k])
+//@ end
+
+//@ # Success of the pipelined receiver is signalled only when the number of bytes the saving stage
+//@ # reports as written equals the announced size (and that step was just acknowledged to the sender).
+//@ func trzszTransfer.pipelineSendAck$1
+//@   before send:ctx.succ assert [C02] step == size && result_of("trzszTransfer.sendInteger", 0, 0) == nil
+//@ end
+
+//@ # Success of the pipelined sender is signalled only when the receiver acknowledged exactly the
+//@ # announced size as saved.
+//@ func trzszTransfer.pipelineRecvFinalAck
+//@   before send:ctx.succ assert [C02] step == size && result_of("strconv.ParseInt", 0, 1) == nil
+//@ end
